@@ -74,6 +74,32 @@ def make_append(sid, kind, rounds, allsym=8, full=0, native=False):
     return ob
 
 
+def make_same_object(sid, kind, specs):
+    """one container object: add, list, add, list (no save / re-open in between)"""
+    def body(ctx):
+        install_m7()
+        fl, descs = F.build(ctx, specs, allsym_limit=6, full_addr_index=0)
+        cont = CassetteFile() if kind == "cas" else DiskFile()
+        info = {"kind": kind, "files": [s.text() for s in specs]}
+        ok = True
+        for i, cf in enumerate(fl):
+            cont.add_file(cf)
+            try:
+                got = cont.list_files()
+            except VirtualFileValidationError as e:
+                got = None
+                info["read_error"] = str(e)
+            if got is None or not F.same_list(got, descs[:i + 1], ml_only_addrs=(kind == "dsk")):
+                ok = False
+                info["failed_after"] = i
+                break
+        if ok:
+            return True, info
+        return ctx.known(PID, {"part": "same-object"}, {"kind": kind}), info
+    return Ob("C09:same-object:%s:%s" % (kind, sid), body, timeout=400, tags={"part": "same-object"},
+              text="%s container: add/list interleaved: %s" % (kind, [s.text() for s in specs]))
+
+
 def make_untouched(sid, length, order_name, orders, first_idx, slot_idx, kind="ml"):
     """(b) from the C15 symbolic pre-state: nothing that was in use changes"""
     order = orders[order_name]
@@ -253,6 +279,8 @@ def obligations(tier, seed):
             obs.append(make_append("types", kind, [[S("BAS", 20, "basic")], [S("DAT", 30, "data")], [S("SYM", 4, "sym")]]))
         if full:
             obs.append(make_append("big", kind, [[S("ONE", 4603, "ml"), S("TWO", 510, "ml")], [S("THREE", 765, "ml")], [S("FOUR", 9, "ml")]]))
+    for kind in ("cas", "dsk"):
+        obs.append(make_same_object("3", kind, [S("ALPHA", 3, "ml"), S("BRAVO", 300, "ml"), S("CHARLIE", 2500, "ml")]))
     import random
     rnd = random.Random(seed + 41)
     for oname in ["default", "perm0", "straddle"] + (["reversed", "perm1"] if full else []):
